@@ -690,11 +690,7 @@ def main(rep: Report, replay: dict | None) -> None:
             owners.append(case)
         phase["render+project"] += round(time.time() - t0, 1)
         t0 = time.time()
-        # corrupted copies of recorded traces ride along with the first block
-        canaries = corruptions(traces) if (b0 == 0 and not replay) else []
-        if b0 == 0 and not replay and len(canaries) < 10:
-            raise tlc.MachineryError(f"only {len(canaries)} corrupted-trace canaries could be built")
-        allt = traces + [c[0] for c in canaries]
+        allt = traces
         verdicts, st, trn = tlc.validate_traces(
             "Trace_Gfx", "Trace_Gfx.cfg", allt, batch=500, parallel=6, workers=2, name="c03", timeout=900
         )
@@ -716,13 +712,31 @@ def main(rep: Report, replay: dict | None) -> None:
                     {"case": case},
                 )
         phase["trace-validation"] += round(time.time() - t0, 1)
-        for v, (tr, want) in zip(verdicts[len(traces):], canaries):
-            got = v["verdict"].split(":")[0]
-            if v["verdict"] == "ok" or (want != "*" and got != want):
-                raise tlc.MachineryError(
-                    f"corrupted trace not rejected as expected: wanted clause {want!r}, verdict {v['verdict']!r}"
+        if b0 == 0 and not replay:
+            # corrupted copies of ACCEPTED recorded traces must each be rejected with the clause
+            # that names the altered field (the judge is not blind)
+            good = [tr for v, tr in zip(verdicts, traces) if v["verdict"] == "ok"]
+            try:
+                canaries = corruptions(good)
+            except (StopIteration, IndexError):
+                canaries = []
+            if len(canaries) >= 10:
+                cv, st, trn = tlc.validate_traces(
+                    "Trace_Gfx", "Trace_Gfx.cfg", [c[0] for c in canaries], batch=500, parallel=1,
+                    workers=2, name="c03c", timeout=300,
                 )
-            rejected += 1
+                rep.states += st
+                rep.transitions += trn
+                for v, (tr, want) in zip(cv, canaries):
+                    got = v["verdict"].split(":")[0]
+                    if v["verdict"] == "ok" or (want != "*" and got != want):
+                        raise tlc.MachineryError(
+                            f"corrupted trace not rejected as expected: wanted clause {want!r}, "
+                            f"verdict {v['verdict']!r}"
+                        )
+                    rejected += 1
+            elif not rep.violations:
+                raise tlc.MachineryError(f"only {len(canaries)} corrupted-trace canaries could be built")
         for key, n in classify_boundaries(traces).items():
             bc[key] = bc.get(key, 0) + n
         if b0 == 0:
